@@ -3,9 +3,10 @@
 //
 //   V                              -> v <hex CPPCHECK_VERSION_STRING>
 //   K <dir> <main> <rmc> <inl> <sev5> <ud> <cc> <force> <maxcfg> <level> <prod> <prem> <na> {<name> <args>}* <ns> {<line>}*
+//     [<inconclusive> <unusedFunction> <missingInclude> <nu> {<undef>}* <std> <platformtype 0..6> <nl> {<library name>}*]
 //                                  chdir(dir); lex <main> with simplecpp, Preprocessor::loadFiles, (inl: inlineSuppressions),
 //                                  (rmc: removeComments), then the real CppCheck::calculateHash(preprocessor, main)
-//                                  -> k <hash> <dump> M <n> {<str> <line> <col> <comment>}* H <nh> {<name> <n> {tok}*}*
+//                                  -> k <hash> <dump> O <getC()> <getCPP()> <platform.toString()> M <n> {<str> <line> <col> <comment>}* H <nh> {<name> <n> {tok}*}*
 //                                  (dump = SuppressionList::dump(os, main) as CppCheck::calculateHash calls it; the token
 //                                   lists are the ones the hash was computed over)
 //   P <dir> <main> <toolinfo>      Preprocessor::calculateHash(toolinfo) alone (as test/testpreprocessor.cpp calls it) -> p <hash>
@@ -25,6 +26,7 @@
 #include "analyzerinfo.h"
 #include "addoninfo.h"
 #include "version.h"
+#include "platform.h"
 #include "xml.h"
 #include <fstream>
 #include <functional>
@@ -119,6 +121,21 @@ int main(int argc, char** argv) {
                     for (int k = 0; k < ns; ++k)
                         supprs.nomsg.addSuppressionLine(unhex(f.at(i++)));
                     settings.inlineSuppressions = inl;
+                    if (i < f.size()) {     // options outside the key of the pinned commit
+                        if (f.at(i++) == "1") settings.certainty.enable(Certainty::inconclusive);
+                        if (f.at(i++) == "1") settings.checks.enable(Checks::unusedFunction);
+                        if (f.at(i++) == "1") settings.checks.enable(Checks::missingInclude);
+                        const int nu = std::stoi(f.at(i++));
+                        for (int k = 0; k < nu; ++k)
+                            settings.userUndefs.insert(unhex(f.at(i++)));
+                        const std::string std_ = unhex(f.at(i++));
+                        if (!std_.empty())
+                            settings.standards.setStd(std_);
+                        settings.platform.set(static_cast<Platform::Type>(std::stoi(f.at(i++))));
+                        const int nl = std::stoi(f.at(i++));
+                        for (int k = 0; k < nl; ++k)
+                            settings.libraries.emplace_back(unhex(f.at(i++)));
+                    }
                 }
                 std::vector<std::string> files;
                 simplecpp::OutputList outputList;
@@ -136,7 +153,8 @@ int main(int argc, char** argv) {
                     const std::size_t h = TestCppcheck::hash(cppcheck, preprocessor, mainfile);
                     std::ostringstream dump;
                     supprs.nomsg.dump(dump, mainfile);
-                    std::string out = "k " + std::to_string(h) + ' ' + hex(dump.str()) + " M " + toks(preprocessor.mTokens);
+                    std::string out = "k " + std::to_string(h) + ' ' + hex(dump.str()) + " O " + hex(settings.standards.getC()) + ' ' + hex(settings.standards.getCPP())
+                                      + ' ' + hex(settings.platform.toString()) + " M " + toks(preprocessor.mTokens);
                     std::string hs;
                     std::size_t nh = 0;
                     for (const auto& fd : preprocessor.mFileCache) {
